@@ -174,6 +174,7 @@ CLAIMED = {
         "design_ref": "DESIGN.md §6 C09",
     },
     "C10": {
+        "category": "fault_enumeration",
         "text": "Fault enumeration tied to the Lean model, with a partial proof. Every cell of every row kind of four base CIDs (all formats, all 8 field types, both "
                 "checks, all properties) is replaced in turn by each of ~80 hostile values; every data cell likewise; text containers with undecodable bytes, "
                 "unterminated quotes, NUL bytes; the command line on the hostile CIDs. The class of whatever escapes must be InterfaceError/DataError, and it is "
@@ -185,6 +186,18 @@ CLAIMED = {
                 "ODS/XLSX container corruption is covered under C15/C16. One open finding (absurdly large Integer length -> OverflowError).",
         "technique": "exhaustive hostile-value enumeration with Lean-model exception-class prediction + partial Lean 4 totality proofs",
         "design_ref": "DESIGN.md §6 C10",
+    },
+    "C15": {
+        "text": "Lean 4 theorems (Props/C15.lean): for every document, every sheet in it and any ODF encoding using at most column runs, the transcription of ods_rows "
+                "returns exactly the rows and cell texts of that sheet (C15_decode_encode_partial, via run-length lemma C15_runs_lossless); a missing sheet, an "
+                "unreadable container and a bad repeat count give a data-format error; four proved counterexamples show that row runs, white-space elements, spans "
+                "and several paragraphs are not decoded (open findings). Correspondence: an independent ODF encoder (all 32 feature subsets, UTF-8 / UTF-16+BOM / "
+                "ISO-8859-1 with character references, 1-3 sheets) writes real .ods files read by the real code; the encoder's tree is compared with Lean's encodeDoc; "
+                "archives truncated at every 64th byte, content.xml cut at tag boundaries, non-zip input, bad repeat counts.",
+        "note": "Trusted: Lean kernel; zipfile/ElementTree (byte-level parsing is a parameter of the model); the independent encoder. Partial: the full statement is false "
+                "of the current code for four of the five optional features (known findings), the proved theorem covers the fifth and the plain encoding.",
+        "technique": "Lean 4 proof (decode o encode = id over an abstract XML tree, partial) + generated-file correspondence + fault enumeration",
+        "design_ref": "DESIGN.md §6 C15",
     },
 }
 
@@ -207,7 +220,7 @@ def main():
             "evidence_file": "evidence/%s.json" % pid,
             "replay_cmd_template": "./check %s quick --replay {path}" % pid,
             "engine": "lean4-model+correspondence",
-            "level_claimed": {"category": "proof", "text": c["text"], "design_ref": c["design_ref"]},
+            "level_claimed": {"category": c.get("category", "proof"), "text": c["text"], "design_ref": c["design_ref"]},
             "level_note": c["note"],
             "technique": c["technique"],
         })
